@@ -135,6 +135,14 @@ def make (c):
     spec ['loads'] = loads
     if band == 'decide':
         gen.taper_some (np.random.default_rng ([c ['seed'], 11, c ['i']]), spec, 0.2, min_radii = 8.5)
+    # stepped diameters: every wire of its own radius (tube continued by thinner tube or wire), a third of the structures
+    rs = np.random.default_rng ([c ['seed'], 13, c ['i']])
+    if rs.random () < 0.33 and band == 'decide':
+        for g in spec ['geo']:
+            if g ['k'] == 'w':
+                sl = np.linalg.norm (np.array (g ['p1']) - np.array (g ['p2'])) / g ['n']
+                g ['r'] = float (min (g ['r'] * float (rs.choice ([0.3, 0.5, 2.0, 3.0])), sl / 8.5))
+        spec ['steps'] = True
     spec ['band'] = band
     spec ['refine'] = bool (c ['i'] % 8 == 0)
     # drive levels of microvolts (input powers down to 1e-15 W): the balance is a ratio
